@@ -24,7 +24,7 @@ func (f *fakeConn) Close() error {
 	}
 	return nil
 }
-func (f *fakeConn) LocalAddr() net.Addr                { return nil }
+func (f *fakeConn) LocalAddr() net.Addr              { return nil }
 func (f *fakeConn) SetDeadline(time.Time) error      { return nil }
 func (f *fakeConn) SetReadDeadline(time.Time) error  { return nil }
 func (f *fakeConn) SetWriteDeadline(time.Time) error { return nil }
